@@ -184,6 +184,7 @@ func (sr *StreamReader[T]) Recv() (T, error) {
 //		fmt.Println(chunk)
 //	}
 func (sr *StreamReader[T]) Close() {
+	verifC19Close()
 	switch sr.typ {
 	case readerTypeStream:
 		sr.st.closeRecv()
@@ -219,6 +220,7 @@ func (sr *StreamReader[T]) Copy(n int) []*StreamReader[T] {
 	if n < 2 {
 		return []*StreamReader[T]{sr}
 	}
+	verifC19Copy(n)
 
 	if sr.typ == readerTypeArray {
 		ret := make([]*StreamReader[T], n)
@@ -278,10 +280,12 @@ type streamItem[T any] struct {
 }
 
 func newStream[T any](cap int) *stream[T] {
-	return &stream[T]{
+	s := &stream[T]{
 		items:  make(chan streamItem[T], cap),
 		closed: make(chan struct{}),
 	}
+	verifC19StreamNew(s, cap)
+	return s
 }
 
 func (s *stream[T]) asReader() *StreamReader[T] {
@@ -290,6 +294,7 @@ func (s *stream[T]) asReader() *StreamReader[T] {
 
 func (s *stream[T]) recv() (chunk T, err error) {
 	item, ok := <-s.items
+	verifC19StreamRecv(s, ok)
 
 	if !ok {
 		item.err = io.EOF
@@ -317,10 +322,12 @@ func (s *stream[T]) send(chunk T, err error) (closed bool) {
 }
 
 func (s *stream[T]) closeSend() {
+	verifC19StreamCloseSend(s)
 	close(s.items)
 }
 
 func (s *stream[T]) closeRecv() {
+	verifC19StreamCloseRecv(s)
 	close(s.closed)
 }
 
@@ -421,6 +428,7 @@ func (msr *multiStreamReader[T]) recv() (T, error) {
 			}
 		}
 
+		verifC19StreamRecv(msr.sts[chosen], false)
 		for i := range msr.chosenList {
 			if msr.chosenList[i] == chosen {
 				msr.chosenList = append(msr.chosenList[:i], msr.chosenList[i+1:]...)
@@ -548,6 +556,7 @@ func copyStreamReaders[T any](sr *StreamReader[T], n int) []*StreamReader[T] {
 		subStreamList: make([]*cpStreamElement[T], n),
 		closedNum:     0,
 	}
+	verifC19ChildNew(cpsr, n)
 
 	// Initialize subStreamList with an empty element, which acts like a tail node.
 	// A nil element (used for dereference) represents that the child has been closed.
@@ -600,6 +609,7 @@ func (p *parentStreamReader[T]) peek(idx int) (t T, err error) {
 	//    similar to the initialization in copyStreamReaders.
 	elem.once.Do(func() {
 		t, err = p.sr.Recv()
+		verifC19ChildRecv(p, err)
 		elem.item = streamItem[T]{chunk: t, err: err}
 		if err != io.EOF {
 			elem.next = &cpStreamElement[T]{}
@@ -624,6 +634,7 @@ func (p *parentStreamReader[T]) close(idx int) {
 	}
 
 	p.subStreamList[idx] = nil
+	verifC19ChildClose(p, idx)
 
 	curClosedNum := atomic.AddUint32(&p.closedNum, 1)
 
